@@ -79,6 +79,10 @@ contract("CircuitCompositeOperation.extend", params=dict(self=CCO, other=CCO), r
                     f"forall(old({NODES}), lambda n: exists({NODES}, lambda m: m is n))",
                     f"forall({NODES}, lambda n: exists(old({NODES}), lambda m: m is n) or exists_int(0, _i, lambda j: n.operation is _xs[j].operation))",
                     f"forall_int(0, _i, lambda j: exists({NODES}, lambda n: n.operation is _xs[j].operation))",
+                    # the chain link itself (fixed before the loop)
+                    f"old({G}.empty_graph) or let(relation, lambda l: typeis(l, MultiRelationLink) and l._relation_type == RelationType.FOLLOWED_BY and "
+                    f"l._relation_to_group == MultiRelationType.LATEST and len(l._reference_nodes) == len({LEAFS}) and "
+                    f"forall_int(0, len({LEAFS}), lambda k: l._reference_nodes[k] is {LEAFS}[k].operation))",
                     # links: done ones carry the chain link (or kept their own), pending ones are untouched
                     f"old({G}.empty_graph) or forall_int(0, _i, lambda j: {HADJ} or _xs[j].operation.relation_link is relation)",
                     f"forall_int(_i, len(_xs), lambda j: _xs[j].operation.relation_link is old(_xs[j].operation.relation_link))",
@@ -89,11 +93,10 @@ contract("CircuitCompositeOperation.extend", params=dict(self=CCO, other=CCO), r
 # appends the snapshot itself, or re-copies the growing circuit, fails a precondition or the count).
 contract("CircuitCompositeOperation.repeat", params=dict(self=CCO, times=INT), returns=CCO, props=P, inst_depth=2, split=4,
          modifies=REL_FIELDS + ["graph", "CircuitCompositeOperation._circuit_graph"],
-         requires=["times >= 1"],
          ensures=["result is self", f"{G} is old({G})",
                   "forall_obj(CircuitCompositeOperation, lambda c: fresh(c) or c._circuit_graph is old(c._circuit_graph))",
                   f"forall_obj(CircuitGraphBranch, lambda g: fresh(g) or g is old({G}) or seq_is(g.get_node_iterator(), old(g.get_node_iterator())))",
-                  f"len({NODES}) == times * len(old({NODES}))",
+                  f"len({NODES}) == (times if times >= 1 else 1) * len(old({NODES}))",
                   f"forall(old({NODES}), lambda n: exists({NODES}, lambda m: m is n))",
                   "self.repetition_strategy is old(self.repetition_strategy)"],
          loops={0: [f"{G} is old({G})",
@@ -104,3 +107,50 @@ contract("CircuitCompositeOperation.repeat", params=dict(self=CCO, times=INT), r
                     "typeis(original_self, CircuitCompositeOperation)", "fresh(original_self)", "fresh(original_self._circuit_graph)",
                     f"len(original_self._circuit_graph.get_node_iterator()) == len(old({NODES}))",
                     "original_self is not self", f"original_self._circuit_graph is not {G}"]})
+
+
+# ---------------------------------------------------------------- apply_modifiers_to_self (recursive through dynamic dispatch)
+# Ghost relations (rigid; no counterpart in the code).  x.inside(c): c is x or is/was ever nested below x.  x.owns(g): g is the graph
+# of a composite inside x.  x.tree_ok: x and everything ever placed below it form a TREE - no composite is nested in itself, no two
+# composites share a graph object (assumption A-tree on the inputs of apply_modifiers; it is a precondition, not an axiom).
+observer("ICircuitOperation.inside", params=dict(self=OP, c=OP), returns=BOOL, reads=[], ensures=["implies(c is self, result)"])
+observer("ICircuitOperation.owns", params=dict(self=OP, g=GB), returns=BOOL, reads=[])
+observer("ICircuitOperation.tree_ok", params=dict(self=OP), returns=BOOL, reads=[],
+         ensures=["implies(result and typeis(self, CircuitCompositeOperation), self.owns(self._circuit_graph) and "
+                  "forall(self._circuit_graph.get_node_iterator(), lambda n: let(n.operation, lambda x: "
+                  "x.tree_ok and not x.inside(self) and not x.owns(self._circuit_graph) and "
+                  "forall_obj(ICircuitOperation, lambda c: not x.inside(c) or self.inside(c)) and "
+                  "forall_obj(CircuitGraphBranch, lambda g: not x.owns(g) or self.owns(g)))) and "
+                  # siblings are not nested in one another
+                  "forall(self._circuit_graph.get_node_iterator(), lambda a: forall(self._circuit_graph.get_node_iterator(), lambda b: "
+                  "a is b or not a.operation.inside(b.operation))))"])
+RESETX = ("(not typeis(x, CircuitCompositeOperation) or "
+          "(typeis(x.repetition_strategy, FixedRepetitionStrategy) and x.repetition_strategy.repetitions == 1))")
+STRAT = "CircuitCompositeOperation.repetition_strategy"
+RESET = ("not typeis(self, CircuitCompositeOperation) or "
+         "(typeis(self.repetition_strategy, FixedRepetitionStrategy) and self.repetition_strategy.repetitions == 1)")
+F_STRAT = "forall_obj(CircuitCompositeOperation, lambda c: fresh(c) or self.inside(c) or c.repetition_strategy is old(c.repetition_strategy))"
+F_FLD = "forall_obj(CircuitCompositeOperation, lambda c: fresh(c) or c._circuit_graph is old(c._circuit_graph))"
+F_GRAPH = "forall_obj(CircuitGraphBranch, lambda g: fresh(g) or self.owns(g) or seq_is(g.get_node_iterator(), old(g.get_node_iterator())))"
+AM_MOD = REL_FIELDS + ["graph", "CircuitCompositeOperation._circuit_graph", STRAT]
+AM_ENS = ["result is self", RESET, F_STRAT, F_FLD, F_GRAPH]
+# interface contract: used for the recursive call on every child; refined by every implementation below
+contract("ICircuitOperation.apply_modifiers_to_self", params=dict(self=OP), returns=OP, verify=False, modifies=AM_MOD,
+         requires=["self.tree_ok"], ensures=AM_ENS)
+for c in ["SingleQubitOperation", "TwoQubitOperation", "DispersiveMeasure", "Barrier", "CircuitCompositeOperation"]:
+    refines(f"{c}.apply_modifiers_to_self", "ICircuitOperation.apply_modifiers_to_self", props=P)
+N0 = "old(self.nr_of_repetitions)"
+contract("CircuitCompositeOperation.apply_modifiers_to_self", params=dict(self=CCO), returns=OP, props=P, inst_depth=2, split=4,
+         modifies=AM_MOD, requires=["self.tree_ok"],
+         ensures=AM_ENS + [
+             "self.nr_of_repetitions == 1",
+             # n copies of the content at this level (n < 1 behaves as 1)
+             f"len({NODES}) == ({N0} if {N0} >= 1 else 1) * len(old({NODES}))",
+             f"forall(old({NODES}), lambda n: exists({NODES}, lambda m: m is n))",
+             # every first-level operation has had its own modifiers applied (and so on below it, by this same contract)
+             f"forall({NODES}, lambda n: let(n.operation, lambda x: {RESETX}))"],
+         loops={0: [f"forall_int(0, _i, lambda j: let(_xs[j].operation, lambda x: {RESETX}))", "self.tree_ok", f"{G} is old({G})", f"seq_is({NODES}, _xs)",
+                    "typeis(self.repetition_strategy, FixedRepetitionStrategy) and self.repetition_strategy.repetitions == 1",
+                    F_STRAT, F_FLD, F_GRAPH,
+                    f"len({NODES}) == ({N0} if {N0} >= 1 else 1) * len(old({NODES}))",
+                    f"forall(old({NODES}), lambda n: exists({NODES}, lambda m: m is n))"]})
